@@ -26,6 +26,7 @@ META = dict(
 )
 META["text"] += ' R5 includes CVR.from_vote (the one-contest record the RAIRE reader builds: votes == {contest_id: vote}, id and phantom flag passed on).'
 META["text"] += ' R2 requires the union to be a new dict (an in-place update would write into a dict other records may share).'
+META["text"] += ' R3 also: the flag stores are executed for every repeated record (not inside a branch of the tally-pool reconciliation).'
 
 SPEC_TP = '''
 def spec(old, new):
@@ -129,9 +130,11 @@ def run(chk):
                 got = Tx().cond(v)
                 want = spec.cond_term(f"{c}.{flag} {opname} {tgt}.{flag}")
                 sem = aud.cond_equiv(got, want)[0]
-            chk.ob("C18.R3", where, f"{flag}-store" if flag == "pool" else f"{flag}-store", typed and sem,
+            uncond = any(s is m_ for m_ in merge_body)  # for every repeated record, whatever its tally pool says
+            chk.ob("C18.R3", where, f"{flag}-store" if flag == "pool" else f"{flag}-store", typed and sem and uncond,
                    f"every store to .{flag} in the merge is `later.{flag} {opname} earlier.{flag}`: a boolean expression over the "
-                   f".{flag} attributes only (so the flag remains a true/false value)", node=s, statement=norm(s)[:120], store_index=k)
+                   f".{flag} attributes only (so the flag remains a true/false value), executed for every repeated record",
+                   node=s, statement=norm(s)[:120], store_index=k, unconditional=uncond)
     # R4 tally pool
     tp_if = [s for s in merge_body if "tally_pool" in norm(s)]
     ok = False
